@@ -5,6 +5,19 @@ from pathlib import Path
 VERIF = Path(__file__).resolve().parents[2]
 
 CLAIMED = {
+    'C02': dict(
+        category='proof',
+        text='Theorems that the key text (hence the location, C12) is invariant under: permuting parameter declarations, '
+             'adding parameters excluded from persistence (ignored, default-valued), permuting mapping keys at any depth '
+             '(sort + idempotence of the sort), permuting inputs, mounting under any namespace (prefix stripped, order '
+             'preserved under a common prefix), config-vs-context origin of a value, and the values substituted for '
+             'placeholders. Tied to the code by differential runs of the whole chain model on (configuration, '
+             'computation-preserving rewriting) pairs: renamed files, permutations, extra unpersisted parameters, changed '
+             'global_vars, mounting under a namespace; oracle: corresponding tasks keep their path.',
+        note='partial: the interpreter hash seed is outside the model; AutoParameterObject arguments that are mappings '
+             'are insertion-ordered in the code (refuted example in the file, known finding K2, not yet replayed)',
+        technique='Coq proof (sorted-permutation uniqueness, sort/map commutation) + differential correspondence via vm_compute',
+        ref='DESIGN.md section 5, C02'),
     'C10': dict(
         category='proof',
         text='Theorems over all name lists and queries (arbitrary text, no well-formedness needed): resolution is '
@@ -30,6 +43,17 @@ CLAIMED = {
         technique='Coq proof (strong induction against an inductive spec relation; nested induction on values) + '
                   'differential correspondence via vm_compute',
         ref='DESIGN.md section 5, C11'),
+    'C12': dict(
+        category='proof',
+        text='The 1.4.0 scheme stated as theorems about the model (key = 32 hex digits of H(params$$$inputs), registry '
+             'and inputs text, directory layout, extensions, side files); FIPS vectors for the Gallina SHA-256; 7 golden '
+             'pipelines whose full relative paths, produced by the pinned implementation, are recomputed by the kernel '
+             'from the model (vm_compute). Every run compares registry texts, whole-chain keys/locations (three-way with '
+             'a frozen independent re-implementation) and SHA-256 vs hashlib on random inputs.',
+        note='essentially translation validation of the scheme: goldens and the frozen oracle were produced at the '
+             'pinned commit; name mode (key = config name) is covered with C20',
+        technique='Coq kernel-checked golden equations (vm_compute, Gallina SHA-256) + three-way differential check',
+        ref='DESIGN.md section 5, C12'),
     'C16': dict(
         category='proof',
         text='Theorems for every signature, positional prefix and keyword order: the decorator\'s normalisation binds '
